@@ -992,6 +992,15 @@ DIRECTED = {
     _T.replace(">", ' ttp:frameRateMultiplier="1000 0">') + '<body><div><p begin="10f">x</p></div></body></tt>',
     _T.replace(">", ' ttp:cellResolution="0 0">') + '<body><div><p tts:fontSize="1c">x</p></div></body></tt>',
     _T.replace(">", ' tts:extent="0px 0px">') + '<body><div><p tts:fontSize="10px">x</p></div></body></tt>',
+    # reference graphs: loops of two and three styles, a self reference, a loop reached from a region and from a nested style, forward and unknown references
+    _T + '<head><styling><style xml:id="a" style="b" tts:color="red"/><style xml:id="b" style="a" tts:fontWeight="bold"/></styling></head><body><div><p style="a">x</p></div></body></tt>',
+    _T + '<head><styling><style xml:id="s1" style="s2"/><style xml:id="s2" style="s3" tts:color="red"/><style xml:id="s3" style="s1"/></styling></head><body style="s3"><div><p style="s1 s2">x</p></div></body></tt>',
+    _T + '<head><styling><style xml:id="a" style="a a" tts:color="red"/></styling></head><body><div><p style="a">x<span style="a a">y</span></p></div></body></tt>',
+    _T + '<head><styling><style xml:id="a" style="b"/><style xml:id="b" style="a c"/><style xml:id="c" style="zz b"/></styling><layout><region xml:id="r1" style="c"><style style="a"/></region></layout></head>'
+         '<body><div><p region="r1">x<br style="b"/></p></div></body></tt>',
+    _T + '<head><styling><style xml:id="a" style="later"/><style xml:id="later" style="missing" tts:color="red"/></styling></head><body><div><p style="a missing">x<set style="a" tts:color="blue"/></p></div></body></tt>',
+    _T + '<body><div><p region="nowhere" style="nothing">x</p></div></body></tt>',
+    _T + '<body><set><div/></set><div><p><set><span>y</span></set>x</p></div></body></tt>',
   ],
   "srt": ["1\n00:00:01,000 --> 00:00:02,000\n<font color>x</font>\n", "1\n00:00:01,000 --> 00:00:02,000\n<![ x\n", "1\n00:00:01,000 --> 00:00:02,000\na</b></b></b>b<i>c\n",
           "1\n00:00:01,000 --> 00:00:02,000\n\n2\n00:00:03,000 --> 00:00:04,000\n\n"],
@@ -1001,7 +1010,13 @@ DIRECTED = {
           "WEBVTT\n\n00:00:01.000 --> 00:00:02.000 size:" + "9" * 400 + "%\nx\n", "WEBVTT\n\n00:00:01.000 --> 00:00:02.000\n\n00:00:03.000 --> 00:00:04.000\n\n"],
   "scc": [("Scenarist_SCC V1.0\n\n00:00:01:00\t9425 9425 94ad 94ad c1c2\n\n00:00:02:00\t942c 942c 1320 1320\n", None), ("Scenarist_SCC V1.0\n\n00:00:01:00\t9723 9723 c8e9\n", None),
           ("Scenarist_SCC V1.0\n\n00:00:01:00\t9429 9429 9723 9723 c8e9\n", None), ("Scenarist_SCC V1.0\n\n00:00:01:00\t94a1 94a1\n", None),
-          ("Scenarist_SCC V1.0\n\n00:00:05:00\t9429 9429 94ec 94ec\n\n00:00:02:00\tc1c2 2080\n", None)],
+          ("Scenarist_SCC V1.0\n\n00:00:05:00\t9429 9429 94ec 94ec\n\n00:00:02:00\tc1c2 2080\n", None),
+          # every miscellaneous / mid-row / attribute / tab code with no caption in each of the three modes, and again after an erase
+          ("Scenarist_SCC V1.0\n\n00:00:01:00\t9429 9429 91ae 91ae 9120 9120 1020 1020 97a1 97a1 94a1 94a1 94ad 94ad 94a4 94a4 c1c2\n", None),
+          ("Scenarist_SCC V1.0\n\n00:00:01:00\t9425 9425 91ae 91ae 9120 9120 1020 1020 97a1 97a1 94a1 94a1 94a4 94a4 c1c2\n", None),
+          ("Scenarist_SCC V1.0\n\n00:00:01:00\t9420 9420 91ae 91ae 9120 9120 1020 1020 97a1 97a1 94a1 94a1 94a4 94a4 c1c2 942f 942f\n", None),
+          ("Scenarist_SCC V1.0\n\n00:00:01:00\t9429 9429 9470 9470 c8e5 ecec ef80\n\n00:00:03:00\t942c 942c 91ae 91ae 9120 9120 1020 1020 97a2 97a2 94a1 94a1 c1c2\n", None),
+          ("Scenarist_SCC V1.0\n\n00:00:01:00\t9425 9425 9470 9470 c8e5 ecec ef80\n\n00:00:03:00\t942c 942c 91ae 91ae 9120 9120 1020 1020 97a2 97a2 94a1 94a1 c1c2\n", None)],
   "stl": [(F.gsi_block(DSC=b"0", MNR=b"00") + F.tti_block(tf=b"x"), {"max_row_count": "MNR"}), (F.gsi_block(DSC=b" ", MNR=b"00") + F.tti_block(vp=1, tf=b"x"), {"max_row_count": "MNR"}),
           (F.gsi_block(TNB=b"00000") + F.tti_block(tf=b"x"), None), (F.gsi_block(TNB=b"     ") + F.tti_block(tf=b"x"), None),
           (F.gsi_block() + F.tti_block(cs=2, tf=b"x") + F.tti_block(sn=1, cs=3, tf=b"y"), None)],
